@@ -54,9 +54,51 @@ class C08(PropBase):
             ops.append({'op': 'tick', 'dt': rng.choice([0, 1, eff // 3, eff // 2, eff + 1])})
         return {'ops': ops, 'no_model': True}
 
+    def live_override(self, rng):
+        """override_receiver_stmin is given / changed / cleared through params.set() on the live layer, between two blocks or two messages
+        whose ContinueToSend frames carry the SAME STmin byte: from the next ContinueToSend on, the value then in force counts (judge-only)"""
+        a, _ = gen.rand_addr_pair(rng, mode=rng.choice([0, 0, 3]), asym_prob=0)
+        ovals = [None, 0, 0.003, 0.02, 0.2]
+        ovr = rng.choice(ovals)
+        params = {} if ovr is None else {'override_receiver_stmin': ovr}
+        ops = [{'op': 'layer', 'i': 0, 'addr': a, 'params': params}]
+        pre = gen.prefix_len(a, 'tx')
+        c = 7 - pre
+        b = rng.choice([0, 0x05, 0x14, 0x7F, 0xF5])
+        bs = rng.choice([1, 2, 3])
+        rid = 0
+
+        def drive(nblocks, ovr):
+            for _ in range(nblocks):
+                fid, ext, data = fc_frame(a, bs, b)
+                ops.append({'op': 'frame', 'i': 0, 'id': fid, 'ext': ext, 'data': data})
+                eff = ref.stmin_ns(b) if ovr is None else int(ovr * 1e9)
+                for _ in range(bs + 1):
+                    ops.append({'op': 'process', 'i': 0})
+                    ops.append({'op': 'tick', 'dt': rng.choice([0, 1000, eff // 2, max(0, eff - 1), eff + 1, eff + 1, 2 * eff + 1])})
+                ops.append({'op': 'process', 'i': 0})
+        for m in range(rng.choice([1, 2, 2])):
+            rid += 1
+            nblk = rng.choice([2, 3])
+            n = (6 - pre) + c * bs * nblk
+            ops.append({'op': 'send', 'i': 0, 'id': rid, 'data': gen.rand_payload(rng, n)})
+            ops.append({'op': 'process', 'i': 0})
+            k = rng.randrange(0, nblk + 1)
+            drive(k, ovr)
+            new = rng.choice([v for v in ovals if v != ovr])
+            ops.append({'op': 'paramset', 'i': 0, 'key': 'override_receiver_stmin', 'value': new})
+            ovr = new
+            drive(nblk - k + 1, ovr)
+            ops.append({'op': 'tick', 'dt': 300000000})
+            ops.append({'op': 'process', 'i': 0})
+        return {'ops': ops, 'no_model': True}
+
     def scenario(self, rng, tier):
-        if rng.random() < 0.06:
+        r0 = rng.random()
+        if r0 < 0.06:
             return self.slow_generator(rng)
+        if r0 < 0.12:
+            return self.live_override(rng)
         a, _ = gen.rand_addr_pair(rng, mode=rng.choice([0, 0, 3, 6]), asym_prob=0)
         params = {}
         if rng.random() < 0.3:
@@ -139,23 +181,50 @@ class C08(PropBase):
         out = []
         last_cf_t = None
         req = None      # required separation (ns) from the most recent CTS read
+        parked = None
+        need = None     # separation in force: fixed when a ContinueToSend is read (the override then set, else the STmin of that frame)
         for r in trace.records(lines_in, impl_out):
+            if r.op == 'paramset' and r.result == 'ok' and r.toks[2:3] == ['override_receiver_stmin']:
+                # given through params.set() on the live layer: counts from the next ContinueToSend on
+                t = r.toks[3]
+                if t == 'N':
+                    ovr = None
+                elif t.startswith('i'):
+                    ovr = int(t[1:])
+                else:
+                    nu, de = t[1:].split('/')
+                    ovr = int(nu) / int(de)
+            # A Flow Control read by a pass that also transmits is handed to the transmit state machine at once.  One read by a RECEIVE-ONLY
+            # pass (outside the quantifier of the property, mixed in by the harness) waits in the depth-1 mailbox `last_flow_control_frame`
+            # until a transmitting pass takes it - and is replaced if another Flow Control is read first (DESIGN 11.3, observation on
+            # receive-only passes): "the most recent ContinueToSend" is the most recent one the transmit side was given.
+            txen = r.op == 'process' and r.toks[3:4] == ['1']
+            fcs = [e for e in r.events if e['k'] == 'rx' and ref.reception_condition(rxh, e['id'], e['ext'], e['data'])
+                   and ref.classify(e['data'][pre_rx:])[0] == 'fc']
+            if txen and parked is not None and not fcs:
+                if parked[1] == 0:
+                    req = ref.stmin_ns(parked[3])
+                    need = req if ovr is None else int(ovr * 1e9)
+                parked = None
             for e in r.events:
                 if e['k'] == 'rx' and ref.reception_condition(rxh, e['id'], e['ext'], e['data']):
                     c = ref.classify(e['data'][pre_rx:])
-                    if c[0] == 'fc' and c[1] == 0:
-                        req = ref.stmin_ns(c[3])
+                    if c[0] == 'fc' and not txen:
+                        parked = c
+                    elif c[0] == 'fc':
+                        parked = None
+                        if c[1] == 0:
+                            req = ref.stmin_ns(c[3])
+                            need = req if ovr is None else int(ovr * 1e9)
                 elif e['k'] == 'tx':
                     c = ref.classify(e['data'][len(prefix):])
                     if c[0] == 'ff':
                         last_cf_t = None
                     elif c[0] == 'cf':
-                        need = req if ovr is None else int(ovr * 1e9)
                         if last_cf_t is not None and need is not None and e['t'] - last_cf_t < need:
                             out.append(('gap', 'Consecutive Frames %d ns apart, STmin in force is %d ns' % (e['t'] - last_cf_t, need)))
                         last_cf_t = e['t']
             if r.op == 'process' and r.toks[3:4] == ['1'] and r.status.get('tx') == '2' and not out:
-                need = req if ovr is None else int(ovr * 1e9)
                 if need == 0:
                     # "with a zero separation time frames are not delayed at all": a transmitting pass may not end with Consecutive Frames
                     # of the current block still to be sent (no rate limiter in these scenarios)
